@@ -7,18 +7,51 @@ import Mathlib.Algebra.Order.Field.Basic
 import Mathlib.Tactic.NormNum
 /-!
 # The glue of the library (`Solver`, the constructors, `SearchDataItem`), taken from the SOURCE TEXT, is what the model assumes
+
+`IOptGen/WiringSrc.lean` (regenerated on every run) holds the statement trees of the facade `Solver`, of the constructors of
+`Process`, `Method`, `OptimizationTask`, `Solution`, `SolverParameters`, `Point`, `FunctionValue`, `Trial`, `SearchDataItem` and of the
+accessors of `SearchDataItem`; `IOptProofs/WiringInterpDefs.lean` parses them (`theProg`) and interprets the parsed form over an object
+graph.  All evaluation below is done by the KERNEL (`decide +kernel`, and `kernel_rfl` for statements with variables).  Here:
+
+* `theProg_eq`: the parser, run on the generated trees, gives the literal `progLit` (a readable rendering of the glue; every other
+  theorem starts by rewriting with it, so ANY change of a glue tree makes this file fail).
+* `solver_init_wiring` (`_kw`, `_default`, `_general`): `Solver(P, Q)` from the empty heap, for ANY external problem `P` and parameters `Q`,
+  gives exactly the 18 objects of `expectedWiring P Q` (`expectedWiringN P Q n` for a problem with `n` functions; the model has `n = 1`).
+  Corollaries: `solver_init_sharing` (ONE search data / evolvent / task / method / parameters object / listener list, the caller's own
+  `P`, `Q`), `solver_init_counts`, `solver_init_evolvent` (which bounds and which density reach the evolvent), `solver_init_flags` (the
+  initial values), `model_fresh_state`, `two_solvers_disjoint`.
+* `optimizationTask_init_general`: `OptimizationTask(P)` builds the identity permutation, for every number of functions, in every world
+  (the loop lemma `perm_loop`, `fill_identity`); `optimizationTask_Calculate`: `Calculate` is one call of the caller's problem.
+* `solver_AddListener_wired`, `solver_addListener_shared`, `solver_AddListener_general`, `wiredL_process_listeners`: listeners added
+  before or after any facade call end up, in call order, in the list object the process reads.
+* `solver_Solve_delegates`, `solver_GetResults_delegates`, `solver_DoGlobalIteration_delegates` (`_kw_default`),
+  `solver_DoLocalRefinement_delegates`, `solver_progress_delegates`: each facade method is ONE call of the same-named method on THE
+  process object (address 17) with the same argument, returning its result where the source returns it.
+* `Facade.solver_Solve_src`, `solver_DoGlobalIteration_src`, `solver_GetResults_src`, `solver_DoLocalRefinement_src`: the facade trees,
+  with the callee resolved through the GENERATED trees of `process.py` and run by `ProcInterp` / `ReportInterp`, are `Proc.solve`,
+  `Proc.doGlobalIteration`, the reported trial, `Proc.doLocalRefinement`; `facade_default_number`: the default `number = 1`.
+* `defaults_meet_hypotheses` (`solverParameters_defaults_parsed`, `parsedDefaults_eq`, `solverParameters_init_defaults`): the default
+  strings are `eps = 1/100, r = 2, itersLimit = 20000, evolventDensity = 10, epsR = 1/1000, refineSolution = false`, which satisfy
+  `1 < r`, `0 < eps`, `1 ≤ itersLimit`, `1 ≤ density`.
+* `solution_fresh_bestTrials` / `solution_mutableDefault_shared`: a fresh placeholder list per `Solution`; a mutable default would be shared.
+* `searchDataItem_init`, `searchDataItem_getters_after_init`, `searchDataItem_getter_eq`, `searchDataItem_setter`,
+  `searchDataItem_get_set`, `searchDataItem_set_other`, `itemGetters_distinct`: the accessors are plain reads / writes of seven distinct
+  attributes, on any object of any world; `model_unevaluated_items`: the initial record and the model's unevaluated item.
+* sensitivity: `copy_of_parameters_stuck`, `copy_of_listeners_stuck`, `fresh_list_for_process_differs`, `second_searchData_differs`,
+  `evolvent_without_density_differs`, `solve_fresh_process_not_delegation`, `setLeft_wrong_field_breaks_law`.
 -/
 
 set_option linter.unusedSimpArgs false
+set_option linter.unusedSectionVars false
 
 open Lean Elab Tactic Meta in
 /-- close `a = b` by `Eq.refl a`; the definitional equality is checked by the KERNEL only (the elaborator's unifier is not run: it does
-not terminate in reasonable time on the interpreter runs below, the kernel needs about a second).  No axiom is involved: the kernel
+not terminate in reasonable time on the interpreter runs below, the kernel needs about a second).  Nothing is assumed: the kernel
 accepts the declaration iff `a` and `b` are definitionally equal. -/
 elab "kernel_rfl" : tactic => do
   let g ← getMainGoal
-  let t ← instantiateMVars (← g.getType)
-  let some (_, lhs, _) := t.eq? | throwError "kernel_rfl: the goal is not an equality"
+  let t := (← instantiateMVars (← g.getType)).consumeMData
+  let some (_, lhs, _) := t.eq? | throwError "kernel_rfl: the goal is not an equality{indentExpr t}"
   g.assign (← mkEqRefl lhs)
 
 namespace WiringInterp
@@ -320,6 +353,73 @@ def progLit : Prog :=
 /-- **the parser, run by the kernel on the generated trees, gives `progLit`** -/
 theorem theProg_eq : theProg = progLit := by kernel_rfl
 
+
+/-! ### basic lemmas -/
+
+theorem lookup_setField_self (fs : List (String × Val)) (k : String) (v : Val) : (setField fs k v).lookup k = some v := by
+  induction fs with
+  | nil => simp [setField, List.lookup]
+  | cons kv t ih =>
+    obtain ⟨k', v'⟩ := kv
+    by_cases h : k' = k
+    · subst h; simp [setField, List.lookup]
+    · have h1 : (k' == k) = false := by simpa using h
+      have h2 : (k == k') = false := by simpa using fun e => h e.symm
+      simp [setField, h1, List.lookup, h2, ih]
+
+theorem lookup_setField_ne (fs : List (String × Val)) {k g : String} (v : Val) (h : g ≠ k) :
+    (setField fs k v).lookup g = fs.lookup g := by
+  induction fs with
+  | nil =>
+    have h2 : (g == k) = false := by simpa using h
+    simp [setField, List.lookup, h2]
+  | cons kv t ih =>
+    obtain ⟨k', v'⟩ := kv
+    by_cases hk : k' = k
+    · subst hk
+      have h2 : (g == k') = false := by simpa using h
+      simp [setField, List.lookup, h2]
+    · have h1 : (k' == k) = false := by simpa using hk
+      simp only [setField, h1, Bool.false_eq_true, ↓reduceIte, List.lookup]
+      cases g == k' <;> simp [ih]
+
+theorem get_app0 {β : Type} (h : List β) (o : β) (t : List β) : (h ++ o :: t)[h.length]? = some o := by
+  simp
+theorem get_app1 {β : Type} (h : List β) (o1 o2 : β) (t : List β) : (h ++ o1 :: o2 :: t)[h.length + 1]? = some o2 := by
+  rw [List.getElem?_append_right (by omega)]; simp
+theorem set_app0 {β : Type} (h : List β) (o o' : β) (t : List β) : (h ++ o :: t).set h.length o' = h ++ o' :: t := by
+  rw [List.set_append_right _ _ (Nat.le_refl _)]; simp
+theorem set_app1 {β : Type} (h : List β) (o1 o2 o' : β) (t : List β) :
+    (h ++ o1 :: o2 :: t).set (h.length + 1) o' = h ++ o1 :: o' :: t := by
+  rw [List.set_append_right _ _ (by omega)]; simp
+
+theorem execList_append (c : Ctx) (env : InitEnv) (l1 l2 : List CStmt) (st : St) :
+    execList c env (l1 ++ l2) st =
+      match execList c env l1 st with
+      | .normal st' => execList c env l2 st'
+      | o => o := by
+  induction l1 generalizing st with
+  | nil => simp [execList]
+  | cons s rest ih =>
+    simp only [List.cons_append, execList]
+    cases execStmt c env s st with
+    | normal st' => simp only []; exact ih st'
+    | returned st' v => rfl
+    | stuck => rfl
+
+/-- `C(args)` at depth `d+1` is the body of `C.__init__` run at depth `d` on the fresh object -/
+theorem new_eq (pg : Prog) (c : Ctx) (d : Nat) (cls : String) (ps : List Val) (ks : List (String × Val)) (w : World) (cd : CDef)
+    (hlk : pg.classes.lookup cls = some cd) (l : Locals) (hb : bindParams cd (.ref w.heap.length) ps ks = some l) :
+    new pg c (d + 1) cls ps ks w =
+      match execList c (envN pg c d) cd.body ⟨{ w with heap := w.heap ++ [{ cls := cls }] }, l⟩ with
+      | .normal st => some (.ref w.heap.length, st.w)
+      | .returned st _ => some (.ref w.heap.length, st.w)
+      | .stuck => none := by
+  unfold new construct
+  rw [envN]
+  simp only [hlk, runInit, hb]
+  cases execList c (envN pg c d) cd.body _ <;> rfl
+
 /-! ### `Solver.__init__` -/
 
 /-- the oracle of the model's setting: ONE objective, no constraints (`Method.M`, `Method.Z` have one entry: the model's scalars
@@ -393,6 +493,202 @@ theorem solver_init_wiring_default (P : Root) (d : Nat) :
 example : new theProg oneObjective 3 "Solver" [.sym (.user 0) [], .sym (.user 1) []] [] {} = none := by
   rw [theProg_eq]; decide +kernel
 
+
+/-! #### any number of objectives and constraints -/
+
+/-- the body of the loop of `OptimizationTask.__init__`, parsed -/
+def permBody : List CStmt := [.assign (.index (.atom (.path "self" ["perm"])) (.atom (.path "i" []))) (.atom (.path "i" []))]
+
+theorem perm_step (c : Ctx) (env : InitEnv) (s a : Nat) (S : Obj) (E : List Val) (i : Nat) (w : World) (l : Locals)
+    (hl : l.lookup "self" = some (.ref s)) (hli : l.lookup "i" = some (.int i)) (hS : w.heap[s]? = some S)
+    (hperm : S.fields.lookup "perm" = some (.ref a)) (hA : w.heap[a]? = some ⟨"ndarray", [], E⟩) (hi : i < E.length) :
+    execList c env permBody ⟨w, l⟩ =
+      .normal ⟨{ w with heap := w.heap.set a ⟨"ndarray", [], E.set i (.int i)⟩ }, l⟩ := by
+  have h1 : ("perm" == "size") = false := by decide +kernel
+  have h2 : ("ndarray" == "list") = false := by decide +kernel
+  simp [permBody, execList, execStmt, evalExpr, evalAtom, evalPure, readFields, readField, storeTo, toInt, isSeq, hl, hli, hS, hperm,
+    hA, hi, h1, h2]
+
+/-- the loop `for i in range(…): self.perm[i] = i` over any list of indices inside the array -/
+theorem perm_loop (c : Ctx) (env : InitEnv) (s a : Nat) (S : Obj) (hsa : s ≠ a) (hperm : S.fields.lookup "perm" = some (.ref a)) :
+    ∀ (is : List Nat) (w : World) (l : Locals) (E : List Val),
+      l.lookup "self" = some (.ref s) → w.heap[s]? = some S → w.heap[a]? = some ⟨"ndarray", [], E⟩ → (∀ i ∈ is, i < E.length) →
+      ∃ l', forLoop "i" (fun st => execList c env permBody st) is ⟨w, l⟩ =
+        .normal ⟨{ w with heap := w.heap.set a ⟨"ndarray", [], is.foldl (fun E i => E.set i (.int i)) E⟩ }, l'⟩ := by
+  intro is
+  induction is with
+  | nil =>
+    intro w l E _ _ hA _
+    refine ⟨l, ?_⟩
+    have : w.heap.set a ⟨"ndarray", [], E⟩ = w.heap := by
+      apply List.ext_getElem?
+      intro n
+      by_cases hn : a = n
+      · subst hn
+        have ha : a < w.heap.length := by
+          rcases Nat.lt_or_ge a w.heap.length with h' | h'
+          · exact h'
+          · rw [List.getElem?_eq_none h'] at hA; cases hA
+        rw [List.getElem?_set_self ha, hA]
+      · rw [List.getElem?_set_ne hn]
+    simp only [forLoop, List.foldl_nil, this]
+  | cons i rest ih =>
+    intro w l E hl hS hA hin
+    have hi : i < E.length := hin i (by simp)
+    have ha : a < w.heap.length := by
+      rcases Nat.lt_or_ge a w.heap.length with h' | h'
+      · exact h'
+      · rw [List.getElem?_eq_none h'] at hA; cases hA
+    have hne : ("self" : String) ≠ "i" := by decide
+    have hl' : (setField l "i" (.int i)).lookup "self" = some (.ref s) := by rw [lookup_setField_ne _ _ hne]; exact hl
+    have hli : (setField l "i" (.int i)).lookup "i" = some (.int i) := lookup_setField_self _ _ _
+    have hstep := perm_step c env s a S E i w (setField l "i" (.int i)) hl' hli hS hperm hA hi
+    obtain ⟨l', hrest⟩ := ih { w with heap := w.heap.set a ⟨"ndarray", [], E.set i (.int i)⟩ } (setField l "i" (.int i))
+      (E.set i (.int i)) hl' (by simp only []; rw [List.getElem?_set_ne (Ne.symm hsa)]; exact hS)
+      (by simp only []; rw [List.getElem?_set_self ha]) (by intro j hj; rw [List.length_set]; exact hin j (by simp [hj]))
+    refine ⟨l', ?_⟩
+    rw [forLoop]
+    simp only [hstep]
+    rw [hrest]
+    simp only [List.set_set, List.foldl_cons]
+
+/-- filling an array of length `n` at the positions `0 … n-1` with the position gives the identity permutation -/
+theorem fill_identity (n : Nat) :
+    (List.range n).foldl (fun E i => E.set i (Val.int i)) (List.replicate n Val.none) = (List.range n).map fun i : Nat => Val.int (i : Int) := by
+  have key : ∀ k, k ≤ n → (List.range k).foldl (fun E i => E.set i (Val.int i)) (List.replicate n Val.none) =
+      ((List.range k).map fun i : Nat => Val.int (i : Int)) ++ List.replicate (n - k) Val.none := by
+    intro k
+    induction k with
+    | zero => intro _; simp
+    | succ k ih =>
+      intro hk
+      rw [List.range_succ, List.foldl_append, ih (by omega)]
+      simp only [List.foldl_cons, List.foldl_nil, List.map_append, List.map_cons, List.map_nil]
+      have hlen : ((List.range k).map fun i : Nat => Val.int (i : Int)).length = k := by simp
+      have : n - k = (n - (k + 1)) + 1 := by omega
+      rw [this, List.replicate_succ, List.set_append_right _ _ (by rw [hlen]), hlen]
+      simp
+  have := key n (Nat.le_refl n)
+  simpa using this
+
+/-- the number of functions of the problem, as the oracle gives it -/
+def nFunctions (c : Ctx) (P : Root) : Nat := (c.extInt P ["numberOfObjectives"] + c.extInt P ["numberOfConstraints"]).toNat
+
+/-- **`OptimizationTask.__init__` builds the identity permutation, for every number of functions and in every world**: `OptimizationTask(P)`
+(generated tree: `np.ndarray(shape=numberOfObjectives + numberOfConstraints)`, then `for i in range(self.perm.size): self.perm[i] = i`)
+allocates the task and ONE array, `perm[i] = i` for all `i` -/
+theorem optimizationTask_init_general (c : Ctx) (d : Nat) (P : Root) (w : World) :
+    new theProg c (d + 1) "OptimizationTask" [.sym P []] [] w =
+      some (.ref w.heap.length, { w with heap := w.heap ++ [
+        { cls := "OptimizationTask", fields := [("problem", .sym P []), ("perm", .ref (w.heap.length + 1))] },
+        { cls := "ndarray", elems := (List.range (nFunctions c P)).map fun i : Nat => Val.int (i : Int) }] }) := by
+  rw [theProg_eq]
+  have hlk : progLit.classes.lookup "OptimizationTask" = some
+      { ok := true, params := ["problem", "perm"], dflts := [("perm", .none)],
+        body := [
+          .assign (.attr "self" [] "problem") (.atom (.path "problem" [])),
+          .ifNone (.path "perm" []) [
+            .ndarray [.attr "self" [] "perm"] (.add (.atom (.path "self" ["problem", "numberOfObjectives"]))
+              (.atom (.path "self" ["problem", "numberOfConstraints"]))),
+            .forRange "i" (.path "self" ["perm", "size"]) permBody] [
+            .assign (.attr "self" [] "perm") (.atom (.path "perm" []))]] } := by kernel_rfl
+  obtain ⟨h, tr⟩ := w
+  have e1 : ("problem" == "self") = false := by decide +kernel
+  have e2 : ("perm" == "self") = false := by decide +kernel
+  have e3 : ("perm" == "problem") = false := by decide +kernel
+  have e4 : ("problem" == "size") = false := by decide +kernel
+  have e5 : ("perm" == "size") = false := by decide +kernel
+  have e6 : ("OptimizationTask" == "ndarray") = false := by decide +kernel
+  have e7 : ("numberOfObjectives" == "size") = false := by decide +kernel
+  have e8 : ("problem" == "perm") = false := by decide +kernel
+  -- the loop, on the heap reached just before it
+  have hloop := perm_loop c (envN progLit c d) h.length (h.length + 1)
+    { cls := "OptimizationTask", fields := [("problem", .sym P []), ("perm", .ref (h.length + 1))] } (by omega)
+    (by simp [List.lookup, e8])
+    (List.range (nFunctions c P))
+    { heap := h ++ [{ cls := "OptimizationTask", fields := [("problem", .sym P []), ("perm", .ref (h.length + 1))] },
+                    { cls := "ndarray", elems := List.replicate (nFunctions c P) Val.none }], trace := tr }
+    [("self", .ref h.length), ("problem", .sym P []), ("perm", .none)] (List.replicate (nFunctions c P) Val.none)
+    (by simp [List.lookup]) (get_app0 _ _ _) (get_app1 _ _ _ _) (by intro i hi; simpa using hi)
+  obtain ⟨l', hl'⟩ := hloop
+  simp only [set_app1, fill_identity] at hl'
+  simp [new, construct, envN, hlk, runInit, bindParams, bindRest, execList, execStmt, evalExpr, evalAtom, evalPure, readFields,
+    readField, storeTo, bindTargets, World.store, World.alloc, toInt, List.lookup, e1, e2, e3, e4, e5, e6, e7, e8, get_app0, set_app0,
+    setField]
+  have hmx : (max (c.extInt P ["numberOfObjectives"] + c.extInt P ["numberOfConstraints"]) 0).toNat = nFunctions c P := by
+    unfold nFunctions; omega
+  rw [hmx]
+  change (match (match (match (match forLoop "i" _ (List.range (nFunctions c P))
+    ⟨⟨h ++ [_, { cls := "ndarray", elems := List.replicate (nFunctions c P) Val.none }], tr⟩, _⟩ with
+      | Out.normal st' => Out.normal st' | o => o) with | Out.normal st' => Out.normal st' | o => o) with
+      | Out.normal st => some st.w | Out.returned st v => some st.w | Out.stuck => none) with
+      | some w' => some (Val.ref h.length, w') | none => none) = _
+  rw [hl']
+
+/-- the object graph after `Solver(P, Q)` for a problem with `n` functions (objectives + constraints): as `expectedWiring`, with
+`perm = [0, …, n-1]`, `M = [1.0] * n`, `Z = [inf] * n` -/
+def expectedWiringN (P Q : Root) (n : Nat) : List Obj :=
+  ((expectedWiring P Q).set 13 { cls := "ndarray", elems := (List.range n).map fun i : Nat => Val.int (i : Int) }
+    |>.set 15 { cls := "list", elems := List.replicate n (.lit "1.0") })
+    |>.set 16 { cls := "list", elems := List.replicate n (.lit "np.inf") }
+
+theorem expectedWiringN_one (P Q : Root) : expectedWiringN P Q 1 = expectedWiring P Q := by kernel_rfl
+
+/-- the world after `Solver(problem, parameters)` for a problem with `n` functions -/
+def wiredN (P Q : Root) (n : Nat) : World := { heap := expectedWiringN P Q n }
+
+theorem wired_eq_wiredN (P Q : Root) : wired P Q = wiredN P Q 1 := by kernel_rfl
+
+/-- the parsed body of `Solver.__init__` -/
+def solverBody : List CStmt := ((progLit.classes.lookup "Solver").map (·.body)).getD []
+
+/-- the parsed `Solver.__init__` -/
+def solverDef : CDef :=
+  { ok := true, params := ["problem", "parameters"], dflts := [("parameters", .sym (.dflt "Solver" "parameters") [])],
+    body := solverBody }
+
+/-- the heap just before `self.task = OptimizationTask(problem)` -/
+def heapBeforeTask (P Q : Root) : List Obj :=
+  (((expectedWiring P Q).take 12).set 0
+    { cls := "Solver", fields := [("problem", .sym P []), ("parameters", .sym Q []), ("_Solver__listeners", .ref 1),
+                                  ("searchData", .ref 2), ("evolvent", .ref 11)] }).set 3
+    { cls := "Solution",
+      fields := [("problem", .sym P []), ("bestTrials", .ref 7), ("numberOfGlobalTrials", .int 0),
+                 ("numberOfLocalTrials", .int 0), ("solvingTime", .lit "0.0"), ("solutionAccuracy", .lit "0.0")] }
+
+/-- **`Solver.__init__`, source trees = the wiring, for EVERY number of objectives and constraints** (whatever the oracle `c` says about
+the caller's problem): the same object graph, with `perm` the identity on `n = numberOfObjectives + numberOfConstraints` indices and
+`M`, `Z` of length `n`.  (`solver_init_wiring` is the case `n = 1` of the model.) -/
+theorem solver_init_wiring_general (c : Ctx) (P Q : Root) (d : Nat) :
+    new theProg c (d + 4) "Solver" [.sym P [], .sym Q []] [] {} =
+      some (.ref 0, wiredN P Q (nFunctions c P)) := by
+  show _ = some (Val.ref 0, ({ heap := expectedWiringN P Q (nFunctions c P) } : World))
+  have hT := optimizationTask_init_general c (d + 2) P { heap := heapBeforeTask P Q }
+  rw [theProg_eq] at hT ⊢
+  generalize nFunctions c P = n at hT ⊢
+  have hlk : progLit.classes.lookup "Solver" = some solverDef := by kernel_rfl
+  have hbind : bindParams solverDef (.ref ({} : World).heap.length) [.sym P [], .sym Q []] [] =
+      some [("self", .ref 0), ("problem", .sym P []), ("parameters", .sym Q [])] := by kernel_rfl
+  have hb : solverDef.body = solverBody.take 5 ++ ([solverBody.getD 5 .stuck] ++ solverBody.drop 6) := by kernel_rfl
+  rw [show d + 4 = d + 3 + 1 from rfl, new_eq progLit c (d + 3) "Solver" _ _ {} solverDef hlk _ hbind, hb, execList_append]
+  -- the statements before `self.task = OptimizationTask(problem)`
+  have hA : execList c (envN progLit c (d + 3)) (solverBody.take 5)
+      ⟨{ heap := ({} : World).heap ++ [{ cls := "Solver" }] }, [("self", .ref 0), ("problem", .sym P []), ("parameters", .sym Q [])]⟩ =
+      .normal ⟨{ heap := heapBeforeTask P Q }, [("self", .ref 0), ("problem", .sym P []), ("parameters", .sym Q [])]⟩ := by
+    kernel_rfl
+  rw [hA]
+  simp only []
+  rw [execList_append]
+  have hs : solverBody.getD 5 .stuck =
+      .construct [.attr "self" [] "task"] "OptimizationTask" [(none, .atom (.path "problem" []))] := by kernel_rfl
+  have hargs : evalArgs c (envN progLit c (d + 3)) [("self", .ref 0), ("problem", .sym P []), ("parameters", .sym Q [])]
+      [(none, .atom (.path "problem" []))] { heap := heapBeforeTask P Q } = some ([.sym P []], [], { heap := heapBeforeTask P Q }) := by
+    kernel_rfl
+  have hT' : construct (envN progLit c (d + 3)) "OptimizationTask" [.sym P []] [] { heap := heapBeforeTask P Q } = _ := hT
+  rw [hs]
+  simp only [execList, execStmt, hargs, hT']
+  kernel_rfl
+
 /-! #### the readable corollaries -/
 
 /-- follow attributes (mangled names) from a value -/
@@ -402,8 +698,8 @@ abbrev World.at (w : World) (v : Val) (path : List String) : Option Val := readF
 `S.process.method` is `S.method`; `S.method.searchData`, `S.process.searchData` and `S.searchData` are the same object, likewise the
 evolvent and the task; `parameters` of the solver, of the method and of the process are the CALLER's object `Q` itself;
 `S.task.problem` is the caller's `P`; `S.process.__listeners` is `S.__listeners` (the same list OBJECT, not a copy). -/
-theorem solver_init_sharing (P Q : Root) :
-    let W := wired P Q
+theorem solver_init_sharing (P Q : Root) (n : Nat) :
+    let W := wiredN P Q n
     let S := Val.ref 0
     (W.at S ["process", "method"] = some (.ref 14) ∧ W.at S ["method"] = some (.ref 14)) ∧
     (W.at S ["method", "searchData"] = some (.ref 2) ∧ W.at S ["process", "searchData"] = some (.ref 2) ∧
@@ -420,36 +716,36 @@ theorem solver_init_sharing (P Q : Root) :
 
 /-- **exactly one object of each kind** is allocated: one `SearchData`, one `Evolvent`, one `OptimizationTask`, one `Method`, one
 `Process` (and one `Solution`, one `Solver`) -/
-theorem solver_init_counts (P Q : Root) :
-    let W := wired P Q
+theorem solver_init_counts (P Q : Root) (n : Nat) :
+    let W := wiredN P Q n
     W.count "SearchData" = 1 ∧ W.count "Evolvent" = 1 ∧ W.count "OptimizationTask" = 1 ∧ W.count "Method" = 1 ∧
     W.count "Process" = 1 ∧ W.count "Solution" = 1 ∧ W.count "Solver" = 1 ∧ W.heap.length = 18 := by
   refine ⟨?_, ?_, ?_, ?_, ?_, ?_, ?_, ?_⟩ <;> kernel_rfl
 
 /-- **what reaches the evolvent** (the content of `IOptModel/Solver.lean`, property C20): the bounds and the dimension of the caller's
 problem and `parameters.evolventDensity` of the caller's parameters object, in this order -/
-theorem solver_init_evolvent (P Q : Root) :
-    (wired P Q).heap[11]? = some
+theorem solver_init_evolvent (P Q : Root) (n : Nat) :
+    (wiredN P Q n).heap[11]? = some
       { cls := "Evolvent",
         fields := [("#0", .sym P ["lowerBoundOfFloatVariables"]), ("#1", .sym P ["upperBoundOfFloatVariables"]),
                    ("#2", .sym P ["numberOfFloatVariables"]), ("#3", .sym Q ["evolventDensity"])] } := by
   kernel_rfl
 
 /-- **the initial values the constructors store**: `__first_iteration = True`, `__refinedTrial = None`,
-`localMethodIterationCount = 0`; `recalc = True`, `best = None`, `iterationsCount = 0`, `stop = False`, `M = [1.0]`, `Z = [inf]`;
+`localMethodIterationCount = 0`; `recalc = True`, `best = None`, `iterationsCount = 0`, `stop = False`, `M = [1.0] * n`, `Z = [inf] * n` (`n = 1`: the model's scalars `M = 1`, `Z`);
 `solutionAccuracy = inf` (the model's `minDelta = none`), `numberOfGlobalTrials = numberOfLocalTrials = 0`, `bestTrials` a list holding
 the placeholder `Trial([], [])`; the search data empty (`_allTrials = []`, `__firstDataItem = None`); the permutation of the task is
-the identity `[0]`. -/
-theorem solver_init_flags (P Q : Root) :
-    let W := wired P Q
+the identity `[0, …, n-1]`.  (For `n = 1`, `wired P Q = wiredN P Q 1`.) -/
+theorem solver_init_flags (P Q : Root) (n : Nat) :
+    let W := wiredN P Q n
     let S := Val.ref 0
     (W.at S ["process", "_Process__first_iteration"] = some (.bool true) ∧
       W.at S ["process", "_Process__refinedTrial"] = some .none ∧
       W.at S ["process", "localMethodIterationCount"] = some (.int 0)) ∧
     (W.at S ["method", "recalc"] = some (.bool true) ∧ W.at S ["method", "best"] = some .none ∧
       W.at S ["method", "iterationsCount"] = some (.int 0) ∧ W.at S ["method", "stop"] = some (.bool false) ∧
-      W.at S ["method", "M"] = some (.ref 15) ∧ W.heap[15]? = some { cls := "list", elems := [.lit "1.0"] } ∧
-      W.at S ["method", "Z"] = some (.ref 16) ∧ W.heap[16]? = some { cls := "list", elems := [.lit "np.inf"] } ∧
+      W.at S ["method", "M"] = some (.ref 15) ∧ W.heap[15]? = some { cls := "list", elems := List.replicate n (.lit "1.0") } ∧
+      W.at S ["method", "Z"] = some (.ref 16) ∧ W.heap[16]? = some { cls := "list", elems := List.replicate n (.lit "np.inf") } ∧
       W.at S ["method", "dimension"] = some (.sym P ["numberOfFloatVariables"])) ∧
     (W.at S ["searchData", "solution", "solutionAccuracy"] = some (.lit "np.inf") ∧
       W.at S ["searchData", "solution", "numberOfGlobalTrials"] = some (.int 0) ∧
@@ -458,22 +754,22 @@ theorem solver_init_flags (P Q : Root) :
       W.heap[6]? = some { cls := "Trial", fields := [("point", .ref 4), ("functionValues", .ref 5)] }) ∧
     (W.at S ["searchData", "_allTrials"] = some (.ref 8) ∧ W.heap[8]? = some { cls := "list" } ∧
       W.at S ["searchData", "_SearchData__firstDataItem"] = some .none) ∧
-    (W.at S ["task", "perm"] = some (.ref 13) ∧ W.heap[13]? = some { cls := "ndarray", elems := [.int 0] }) := by
+    (W.at S ["task", "perm"] = some (.ref 13) ∧ W.heap[13]? = some { cls := "ndarray", elems := (List.range n).map fun i : Nat => Val.int (i : Int) }) := by
   refine ⟨⟨?_, ?_, ?_⟩, ⟨?_, ?_, ?_, ?_, ?_, ?_, ?_, ?_, ?_⟩, ⟨?_, ?_, ?_, ?_, ?_, ?_⟩, ⟨?_, ?_, ?_⟩, ⟨?_, ?_⟩⟩ <;> kernel_rfl
 
 /-! ### the facade: `AddListener`, and the delegation to THE process object -/
 
 /-- the wired world in which the listener list (address `1`) holds `ls` and the calls `tr` have left the fragment so far: the states
-reached from `wired P Q` by facade calls (`solver_*_delegates`, `solver_AddListener_wired`) -/
-def wiredL (P Q : Root) (ls : List Val) (tr : List Call) : World :=
-  { heap := (expectedWiring P Q).set 1 { cls := "list", elems := ls }, trace := tr }
+reached from `wiredN P Q n` by facade calls (`solver_*_delegates`, `solver_AddListener_wired`) -/
+def wiredL (P Q : Root) (n : Nat) (ls : List Val) (tr : List Call) : World :=
+  { heap := (expectedWiringN P Q n).set 1 { cls := "list", elems := ls }, trace := tr }
 
-theorem wiredL_nil (P Q : Root) : wiredL P Q [] [] = wired P Q := by kernel_rfl
+theorem wiredL_nil (P Q : Root) (n : Nat) : wiredL P Q n [] [] = wiredN P Q n := by kernel_rfl
 
 /-- `AddListener(l)` (generated tree), whatever was added and whatever facade calls were made before: `l` is appended to the list
 object at address `1`; nothing else changes -/
-theorem solver_AddListener_wired (c : Ctx) (d : Nat) (P Q : Root) (ls : List Val) (tr : List Call) (l : Val) :
-    callMethod theProg c d "Solver" "AddListener" (.ref 0) [l] [] (wiredL P Q ls tr) = some (wiredL P Q (ls ++ [l]) tr, none) := by
+theorem solver_AddListener_wired (c : Ctx) (d : Nat) (P Q : Root) (n : Nat) (ls : List Val) (tr : List Call) (l : Val) :
+    callMethod theProg c d "Solver" "AddListener" (.ref 0) [l] [] (wiredL P Q n ls tr) = some (wiredL P Q n (ls ++ [l]) tr, none) := by
   rw [theProg_eq]; kernel_rfl
 
 /-- `AddListener` called for each element of a list, in order -/
@@ -487,8 +783,8 @@ def addListeners (pg : Prog) (c : Ctx) (d : Nat) (self : Val) : List Val → Wor
 /-- **`n` calls of `AddListener` ⇒ the `n` listeners, in call order, in the list object that the process reads.**  The process holds
 the SAME list object as the solver (`solver_init_sharing`), so what `for listener in self.__listeners` of `process.py` iterates over
 is `ls ++ new`: the listeners added before any facade call and those added after. -/
-theorem solver_addListener_shared (c : Ctx) (d : Nat) (P Q : Root) (tr : List Call) (new : List Val) :
-    ∀ ls : List Val, addListeners theProg c d (.ref 0) new (wiredL P Q ls tr) = some (wiredL P Q (ls ++ new) tr) := by
+theorem solver_addListener_shared (c : Ctx) (d : Nat) (P Q : Root) (n : Nat) (tr : List Call) (new : List Val) :
+    ∀ ls : List Val, addListeners theProg c d (.ref 0) new (wiredL P Q n ls tr) = some (wiredL P Q n (ls ++ new) tr) := by
   induction new with
   | nil => intro ls; simp [addListeners]
   | cons l rest ih =>
@@ -498,10 +794,10 @@ theorem solver_addListener_shared (c : Ctx) (d : Nat) (P Q : Root) (tr : List Ca
     rw [ih, List.append_assoc]; rfl
 
 /-- … and that IS the list of the process: `S.process.__listeners` is the object at address `1`, whose elements are `ls` -/
-theorem wiredL_process_listeners (P Q : Root) (ls : List Val) (tr : List Call) :
-    (wiredL P Q ls tr).at (.ref 0) ["process", "_Process__listeners"] = some (.ref 1) ∧
-    (wiredL P Q ls tr).at (.ref 0) ["_Solver__listeners"] = some (.ref 1) ∧
-    (wiredL P Q ls tr).heap[1]? = some { cls := "list", elems := ls } := by
+theorem wiredL_process_listeners (P Q : Root) (n : Nat) (ls : List Val) (tr : List Call) :
+    (wiredL P Q n ls tr).at (.ref 0) ["process", "_Process__listeners"] = some (.ref 1) ∧
+    (wiredL P Q n ls tr).at (.ref 0) ["_Solver__listeners"] = some (.ref 1) ∧
+    (wiredL P Q n ls tr).heap[1]? = some { cls := "list", elems := ls } := by
   refine ⟨?_, ?_, ?_⟩ <;> kernel_rfl
 
 /-- **`AddListener(l)` on ANY world**: if the solver object at `s` holds the list object `L` at address `a` as its `__listeners`,
@@ -530,48 +826,48 @@ theorem solver_AddListener_general (c : Ctx) (d : Nat) (w : World) (s a : Nat) (
 /-- **`Solver.Solve()` is ONE call `Solve()` on THE process object, and returns its result** (whatever listeners were added,
 whatever calls were made before): the heap is untouched, the call is sent to address `17` = `S.process`, without arguments, and the
 value returned is the value of that call. -/
-theorem solver_Solve_delegates (c : Ctx) (d : Nat) (P Q : Root) (ls : List Val) (tr : List Call) :
-    callMethod theProg c d "Solver" "Solve" (.ref 0) [] [] (wiredL P Q ls tr) =
-      some (wiredL P Q ls (tr ++ [{ recv := .ref 17, meth := "Solve" }]), some (.res tr.length)) := by
+theorem solver_Solve_delegates (c : Ctx) (d : Nat) (P Q : Root) (n : Nat) (ls : List Val) (tr : List Call) :
+    callMethod theProg c d "Solver" "Solve" (.ref 0) [] [] (wiredL P Q n ls tr) =
+      some (wiredL P Q n ls (tr ++ [{ recv := .ref 17, meth := "Solve" }]), some (.res tr.length)) := by
   rw [theProg_eq]; kernel_rfl
 
 /-- **`Solver.GetResults()` is ONE call `GetResults()` on THE process object, and returns its result** -/
-theorem solver_GetResults_delegates (c : Ctx) (d : Nat) (P Q : Root) (ls : List Val) (tr : List Call) :
-    callMethod theProg c d "Solver" "GetResults" (.ref 0) [] [] (wiredL P Q ls tr) =
-      some (wiredL P Q ls (tr ++ [{ recv := .ref 17, meth := "GetResults" }]), some (.res tr.length)) := by
+theorem solver_GetResults_delegates (c : Ctx) (d : Nat) (P Q : Root) (n : Nat) (ls : List Val) (tr : List Call) :
+    callMethod theProg c d "Solver" "GetResults" (.ref 0) [] [] (wiredL P Q n ls tr) =
+      some (wiredL P Q n ls (tr ++ [{ recv := .ref 17, meth := "GetResults" }]), some (.res tr.length)) := by
   rw [theProg_eq]; kernel_rfl
 
 /-- **`Solver.DoGlobalIteration(number)` is ONE call `DoGlobalIteration(number)` on THE process object** (same argument; the value
 is dropped: the facade returns `None`) -/
-theorem solver_DoGlobalIteration_delegates (c : Ctx) (d : Nat) (P Q : Root) (ls : List Val) (tr : List Call) (number : Val) :
-    callMethod theProg c d "Solver" "DoGlobalIteration" (.ref 0) [number] [] (wiredL P Q ls tr) =
-      some (wiredL P Q ls (tr ++ [{ recv := .ref 17, meth := "DoGlobalIteration", args := [number] }]), none) := by
+theorem solver_DoGlobalIteration_delegates (c : Ctx) (d : Nat) (P Q : Root) (n : Nat) (ls : List Val) (tr : List Call) (number : Val) :
+    callMethod theProg c d "Solver" "DoGlobalIteration" (.ref 0) [number] [] (wiredL P Q n ls tr) =
+      some (wiredL P Q n ls (tr ++ [{ recv := .ref 17, meth := "DoGlobalIteration", args := [number] }]), none) := by
   rw [theProg_eq]; kernel_rfl
 
 /-- … `number` given by keyword; and left out: the default of the FACADE, `1` (`solver_DoGlobalIterationDefaults`), is passed on -/
-theorem solver_DoGlobalIteration_delegates_kw_default (c : Ctx) (d : Nat) (P Q : Root) (ls : List Val) (tr : List Call) (number : Val) :
-    callMethod theProg c d "Solver" "DoGlobalIteration" (.ref 0) [] [("number", number)] (wiredL P Q ls tr) =
-      some (wiredL P Q ls (tr ++ [{ recv := .ref 17, meth := "DoGlobalIteration", args := [number] }]), none) ∧
-    callMethod theProg c d "Solver" "DoGlobalIteration" (.ref 0) [] [] (wiredL P Q ls tr) =
-      some (wiredL P Q ls (tr ++ [{ recv := .ref 17, meth := "DoGlobalIteration", args := [.int 1] }]), none) := by
+theorem solver_DoGlobalIteration_delegates_kw_default (c : Ctx) (d : Nat) (P Q : Root) (n : Nat) (ls : List Val) (tr : List Call) (number : Val) :
+    callMethod theProg c d "Solver" "DoGlobalIteration" (.ref 0) [] [("number", number)] (wiredL P Q n ls tr) =
+      some (wiredL P Q n ls (tr ++ [{ recv := .ref 17, meth := "DoGlobalIteration", args := [number] }]), none) ∧
+    callMethod theProg c d "Solver" "DoGlobalIteration" (.ref 0) [] [] (wiredL P Q n ls tr) =
+      some (wiredL P Q n ls (tr ++ [{ recv := .ref 17, meth := "DoGlobalIteration", args := [.int 1] }]), none) := by
   rw [theProg_eq]; constructor <;> kernel_rfl
 
 /-- **`Solver.DoLocalRefinement(number)` is ONE call `DoLocalRefinement(number)` on THE process object**; default `1` -/
-theorem solver_DoLocalRefinement_delegates (c : Ctx) (d : Nat) (P Q : Root) (ls : List Val) (tr : List Call) (number : Val) :
-    callMethod theProg c d "Solver" "DoLocalRefinement" (.ref 0) [number] [] (wiredL P Q ls tr) =
-      some (wiredL P Q ls (tr ++ [{ recv := .ref 17, meth := "DoLocalRefinement", args := [number] }]), none) ∧
-    callMethod theProg c d "Solver" "DoLocalRefinement" (.ref 0) [] [] (wiredL P Q ls tr) =
-      some (wiredL P Q ls (tr ++ [{ recv := .ref 17, meth := "DoLocalRefinement", args := [.int 1] }]), none) := by
+theorem solver_DoLocalRefinement_delegates (c : Ctx) (d : Nat) (P Q : Root) (n : Nat) (ls : List Val) (tr : List Call) (number : Val) :
+    callMethod theProg c d "Solver" "DoLocalRefinement" (.ref 0) [number] [] (wiredL P Q n ls tr) =
+      some (wiredL P Q n ls (tr ++ [{ recv := .ref 17, meth := "DoLocalRefinement", args := [number] }]), none) ∧
+    callMethod theProg c d "Solver" "DoLocalRefinement" (.ref 0) [] [] (wiredL P Q n ls tr) =
+      some (wiredL P Q n ls (tr ++ [{ recv := .ref 17, meth := "DoLocalRefinement", args := [.int 1] }]), none) := by
   rw [theProg_eq]; constructor <;> kernel_rfl
 
 /-- `SaveProgress` / `LoadProgress` go to THE `SearchData` (address `2`, the one the method and the process hold); `RefreshListener`
 does nothing -/
-theorem solver_progress_delegates (c : Ctx) (d : Nat) (P Q : Root) (ls : List Val) (tr : List Call) (fileName : Val) :
-    callMethod theProg c d "Solver" "SaveProgress" (.ref 0) [fileName] [] (wiredL P Q ls tr) =
-      some (wiredL P Q ls (tr ++ [{ recv := .ref 2, meth := "SaveProgress", kwargs := [("fileName", fileName)] }]), none) ∧
-    callMethod theProg c d "Solver" "LoadProgress" (.ref 0) [fileName] [] (wiredL P Q ls tr) =
-      some (wiredL P Q ls (tr ++ [{ recv := .ref 2, meth := "LoadProgress", kwargs := [("fileName", fileName)] }]), none) ∧
-    callMethod theProg c d "Solver" "RefreshListener" (.ref 0) [] [] (wiredL P Q ls tr) = some (wiredL P Q ls tr, none) := by
+theorem solver_progress_delegates (c : Ctx) (d : Nat) (P Q : Root) (n : Nat) (ls : List Val) (tr : List Call) (fileName : Val) :
+    callMethod theProg c d "Solver" "SaveProgress" (.ref 0) [fileName] [] (wiredL P Q n ls tr) =
+      some (wiredL P Q n ls (tr ++ [{ recv := .ref 2, meth := "SaveProgress", kwargs := [("fileName", fileName)] }]), none) ∧
+    callMethod theProg c d "Solver" "LoadProgress" (.ref 0) [fileName] [] (wiredL P Q n ls tr) =
+      some (wiredL P Q n ls (tr ++ [{ recv := .ref 2, meth := "LoadProgress", kwargs := [("fileName", fileName)] }]), none) ∧
+    callMethod theProg c d "Solver" "RefreshListener" (.ref 0) [] [] (wiredL P Q n ls tr) = some (wiredL P Q n ls tr, none) := by
   rw [theProg_eq]; refine ⟨?_, ?_, ?_⟩ <;> kernel_rfl
 
 /-- a wrong number of arguments is not silently accepted -/
@@ -613,33 +909,6 @@ theorem searchDataItem_getters_after_init (c : Ctx) (d : Nat) (y x : Val) :
   rw [theProg_eq]; refine ⟨?_, ?_, ?_, ?_, ?_, ?_, ?_⟩ <;> kernel_rfl
 
 /-! #### the accessors on ANY item object of ANY world -/
-
-theorem lookup_setField_self (fs : List (String × Val)) (k : String) (v : Val) : (setField fs k v).lookup k = some v := by
-  induction fs with
-  | nil => simp [setField, List.lookup]
-  | cons kv t ih =>
-    obtain ⟨k', v'⟩ := kv
-    by_cases h : k' = k
-    · subst h; simp [setField, List.lookup]
-    · have h1 : (k' == k) = false := by simpa using h
-      have h2 : (k == k') = false := by simpa using fun e => h e.symm
-      simp [setField, h1, List.lookup, h2, ih]
-
-theorem lookup_setField_ne (fs : List (String × Val)) {k g : String} (v : Val) (h : g ≠ k) :
-    (setField fs k v).lookup g = fs.lookup g := by
-  induction fs with
-  | nil =>
-    have h2 : (g == k) = false := by simpa using h
-    simp [setField, List.lookup, h2]
-  | cons kv t ih =>
-    obtain ⟨k', v'⟩ := kv
-    by_cases hk : k' = k
-    · subst hk
-      have h2 : (g == k') = false := by simpa using h
-      simp [setField, List.lookup, h2]
-    · have h1 : (k' == k) = false := by simpa using hk
-      simp only [setField, h1, Bool.false_eq_true, ↓reduceIte, List.lookup]
-      cases g == k' <;> simp [ih]
 
 /-- `get f` after `set f v` is `v` -/
 theorem getAttr_setAttr_self (w : World) (a : Nat) (f : String) (v : Val) (h : a < w.heap.length) :
@@ -763,6 +1032,73 @@ theorem searchDataItem_set_other (c : Ctx) (d : Nat) {s g f f' : String} (hs : (
     · subst hb; rw [getAttr_setAttr_ne _ _ _ h]; exact hread
     · rw [getAttr_setAttr_other _ _ _ _ hb]; exact hread
   · rw [getAttr_setAttr_other _ _ _ _ h]; exact hread
+
+/-! #### the initial item and the model's unevaluated item -/
+
+section
+variable {α : Type} [Add α] [Sub α] [Mul α] [Div α] [Neg α] [LT α] [LE α]
+  [DecidableLT α] [DecidableLE α] [OfNat α 0] [OfNat α 1] [OfNat α 2] [OfNat α 4] [Fns α]
+
+/-- **what the model assumes about a never-evaluated item is what `SearchDataItem.__init__` stores.**
+Source (`searchDataItem_init`) ↔ model (`AGP.Item` of `IOptModel/Method.lean`, `SD.Item` of `IOptModel/SearchData.lean`):
+* `__index = -2` ↔ `ev = false` (`GetIndex()` is `0` for an evaluated item, `-2` otherwise: `MethodInterpDefs`);
+* `__z = sys.float_info.max` ↔ `z = Fns.big` (`IOptModel/Arith.lean`: the double `0x7FEFFFFFFFFFFFFF`);
+* `__leftPoint = __rightPoint = None` ↔ `SD.Item.left = SD.Item.right = none`;
+* `functionValues = [FunctionValue()]` with `value = 0.0` ↔ `hv = 0`;
+* `delta = -1.0` where the model has `delta := 0`, and `globalR = -1.0` where the model has `R := none`: NOT the same values, and it
+  cannot matter: every item is created by `Method.FirstIteration` or `Method.CalculateIterationPoint`, and both attributes are
+  overwritten before anything reads them - `left.delta = 0`, `middle.delta = …`, `right.delta = …` (`FirstIteration`, the three lines after
+  the constructors), `oldpoint.delta = …`, `newpoint.delta = …` (first lines of `RenewSearchData`); `CalculateGlobalR` is called on all three
+  items in `FirstIteration` and on both in `RenewSearchData` before they are inserted (it stores `-inf` = the model's `none` for the item
+  without left neighbour).  `MethodInterp` ties these two functions;
+* `localR`, `iterationNumber`, `__discreteValueIndex`: not in the model (never read by the single-queue method).
+The statement: the two end items of the model's first iteration have exactly the values on the right. -/
+theorem model_unevaluated_items (p : AGP.Params α) (z : α) :
+    ((AGP.firstIteration p z).items.map fun it => (it.id, it.ev)) = [(0, false), (2, true), (1, false)] ∧
+    (∀ it ∈ (AGP.firstIteration p z).items, it.ev = false → it.z = Fns.big ∧ it.hv = 0) ∧
+    (({ x := (0 : Nat), globalR := (0 : Nat), localR := (0 : Nat) } : SD.Item Nat Nat).left = none ∧
+     ({ x := (0 : Nat), globalR := (0 : Nat), localR := (0 : Nat) } : SD.Item Nat Nat).right = none) := by
+  refine ⟨rfl, ?_, rfl, rfl⟩
+  intro it hit hev
+  simp only [AGP.firstIteration, List.mem_cons, List.not_mem_nil, or_false] at hit
+  rcases hit with rfl | rfl | rfl
+  · exact ⟨rfl, rfl⟩
+  · simp at hev
+  · exact ⟨rfl, rfl⟩
+
+/-- **the initial values of `Process` / `Method` and the model's fresh state** (`solver_init_flags` ↔ `({} : Proc.PState α)` and
+`AGP.firstIteration`): `__first_iteration = True` ↔ `m = none` (`ProcInterp.Glob.ofP`), `__refinedTrial = None` ↔ `refined = none`,
+`numberOfLocalTrials = 0` ↔ `nLocal = 0`; and the values `Method.__init__` stores are the ones the model's first iteration starts from:
+`M = 1`, `recalc = true`, `iterationsCount` becomes `1`, `solutionAccuracy = inf` ↔ `minDelta = none` -/
+theorem model_fresh_state (p : AGP.Params α) (z : α) :
+    (ProcInterp.Glob.ofP ({} : Proc.PState α)).first = true ∧ ({} : Proc.PState α).m.isNone = true ∧
+    ({} : Proc.PState α).refined = none ∧ ({} : Proc.PState α).nLocal = 0 ∧ ({} : Proc.PState α).log = [] ∧
+    (AGP.firstIteration p z).M = 1 ∧ (AGP.firstIteration p z).recalc = true ∧ (AGP.firstIteration p z).iters = 1 ∧
+    (AGP.firstIteration p z).minDelta = none ∧ (AGP.firstIteration p z).nTrials = 1 :=
+  ⟨rfl, rfl, rfl, rfl, rfl, rfl, rfl, rfl, rfl, rfl⟩
+
+end
+
+/-! ### two solvers share nothing -/
+
+/-- shift the heap references of a value / of an object by `b` -/
+def Val.shift (b : Nat) : Val → Val
+  | .ref a => .ref (a + b)
+  | v => v
+
+def Obj.shift (b : Nat) (o : Obj) : Obj :=
+  { o with fields := o.fields.map fun kv => (kv.1, kv.2.shift b), elems := o.elems.map (Val.shift b) }
+
+/-- **a second `Solver(P', Q')` leaves every object of the first untouched and builds a disjoint copy of the graph**: the heap is the
+first graph followed by the second graph with all its references shifted by 18 - no object of one solver (search data, listener list,
+method, solution, placeholder trial, `M`, `Z`, …) is referenced from the other; only what the CALLER shares (`P = P'`, `Q = Q'`, the
+default parameters object) is common. -/
+theorem two_solvers_disjoint (P Q P' Q' : Root) (d : Nat) :
+    (match new theProg oneObjective (d + 4) "Solver" [.sym P [], .sym Q []] [] {} with
+     | some (_, w1) => new theProg oneObjective (d + 4) "Solver" [.sym P' [], .sym Q' []] [] w1
+     | none => none) =
+      some (.ref 18, { heap := expectedWiring P Q ++ (expectedWiring P' Q').map (Obj.shift 18) }) := by
+  rw [theProg_eq]; kernel_rfl
 
 /-! ### the defaults of `SolverParameters` meet the standing hypotheses of the headline theorems -/
 
@@ -1157,3 +1493,46 @@ theorem solver_DoLocalRefinement_src (c : ReportInterp.Ctx α) (d : Nat) (number
 
 end
 end Facade
+
+/-! ### non-vacuity: the facade trees RUN over the toy instance of `ProcInterp` / `ReportInterp` (`ℚ`, one dimension) -/
+
+namespace Facade.Examples
+open AGP Proc ProcToy Facade
+
+/-- the facade trees run: `Solver.Solve()` gives the model's `solve` and returns the value; `Solver.DoGlobalIteration(3)` gives the model's
+`doGlobalIteration 3` and returns nothing; an objective raising at its third call: the exception leaves the facade -/
+example :
+    (runP (ProcInterp.Examples.C 5 F) 1 6 Gen.Wiring.solver_Solve [] (ProcInterp.Glob.ofP {})).map
+        (fun r => (ProcInterp.Examples.view r.1, r.2)) =
+      some (ProcInterp.Examples.view (.done (ProcInterp.Glob.ofP (Proc.solve (P 5 (1/100)) F noRefine {}))), true) ∧
+    (runP (ProcInterp.Examples.C 5 F) 0 0 Gen.Wiring.solver_DoGlobalIteration [("number", 3)] (ProcInterp.Glob.ofP {})).map
+        (fun r => (ProcInterp.Examples.view r.1, r.2)) =
+      some (ProcInterp.Examples.view (ProcInterp.POut.ofRes (Proc.doGlobalIteration (P 5 (1/100)) F 3 {} [])), false) ∧
+    (runP (ProcInterp.Examples.C 5 (failAt 2)) 0 0 Gen.Wiring.solver_DoGlobalIteration [("number", 3)] (ProcInterp.Glob.ofP {})).map
+        (fun r => (ProcInterp.Examples.view r.1).map (·.exc)) = some (some (some Raise.objective)) := by
+  decide +kernel
+
+/-- the tie theorems instantiated (their hypotheses hold) -/
+example := solver_Solve_src (ProcInterp.Examples.C 5 (failAt 3) ProcInterp.Examples.someRefine) 0 {}
+example := solver_DoGlobalIteration_src (ProcInterp.Examples.C 5 (failAt 2)) 0 0 3 {}
+example := solver_GetResults_src ReportInterp.Examples.C 0 ReportInterp.Examples.PS1 ReportInterp.Examples.S1 9
+  ReportInterp.Examples.hm1 ReportInterp.Examples.res1 (.inl (by decide +kernel))
+example := solver_GetResults_src ReportInterp.Examples.C 0 ReportInterp.Examples.PS1 ReportInterp.Examples.S1 6
+  ReportInterp.Examples.hm1 ReportInterp.Examples.res1 (.inr (by decide +kernel))
+
+/-- `Solver.GetResults()` / `Solver.DoLocalRefinement(20)` run: the slot is re-pointed from `Method.best` = 9 to the refined trial 6 -/
+example :
+    (runR ReportInterp.Examples.C 0 Gen.Wiring.solver_GetResults [] ⟨ReportInterp.Examples.PS1, 9⟩).map
+        (fun r => (ReportInterp.Examples.view r.1, r.2)) =
+      some (some (ReportInterp.Examples.viewG ⟨ReportInterp.Examples.PS1, 6⟩ (some .solution)), true) ∧
+    (runR ReportInterp.Examples.C 1 Gen.Wiring.solver_DoLocalRefinement [("number", 20)] ⟨ReportInterp.Examples.PS1, 9⟩).map
+        (fun r => ((ReportInterp.Examples.view r.1).map fun v => (v.slot, v.refined, v.nLocal), r.2)) =
+      some (some (6, some 6, 11), false) := by
+  decide +kernel
+
+/-- a facade body over a method that `process.py` does not have, or with an argument that is not bound, is not accepted -/
+example : (runP (ProcInterp.Examples.C 5 F) 1 6 [.ret "self.process.Run()"] [] (ProcInterp.Glob.ofP {})).isNone = true ∧
+    (runP (ProcInterp.Examples.C 5 F) 1 6 Gen.Wiring.solver_DoGlobalIteration [] (ProcInterp.Glob.ofP {})).isNone = true := by
+  decide +kernel
+
+end Facade.Examples
